@@ -15,9 +15,12 @@
    * `findClose_escaped_quote` : an escaped quote `\"` inside the body does not close the literal
    * `odd_backslashes_witness` : the scanner's two-character look-back is fooled by `\\\"`
                          (backslash-backslash-backslash-quote): stated, not hidden
-  Not proved: extraction for arbitrary mixes of escapes (`ScannerOK` bodies) and the opacity of
-  markers through macro replacement — both covered by the differential correspondence (hook H2)
-  and by end-to-end compilation of literals in every syntactic position.
+   * `findClose_body`, `literal_extracted` : EVERY body made of plain characters and the property's escapes, in any
+                         mix and of any length, is closed exactly at its closing quote, whatever follows — under the
+                         scanner's precondition `ScannerOK` (an escaped quote never directly follows an escaped
+                         backslash: the two-character look-back), which `scannerOK_of_b` makes checkable
+  Not proved: the opacity of markers through macro replacement — covered by the differential correspondence
+  (hook H2) and by end-to-end compilation of literals in every syntactic position.
 -/
 import CV.Lit
 import CV.Cpp
@@ -150,6 +153,254 @@ theorem findClose_escaped_quote (a b post : List Char) (n : Nat)
   simp only [h2, h3, Bool.not_true, if_false, Bool.false_eq_true]
   rw [findClose_plain b post n hb1 hb2]
   simp; omega
+
+/-! ### the closing-quote scan on ARBITRARY bodies of plain characters and escapes -/
+
+def Item.isQuoteEsc : Item → Bool
+  | .esc c => c == '"'
+  | _ => false
+
+def Item.isBsEsc : Item → Bool
+  | .esc c => c == '\\'
+  | _ => false
+
+/-- a body item: a plain character that is neither a backslash nor a quote, or one of the property's escapes -/
+def Item.bodyOK : Item → Prop
+  | .plain c => c ≠ '\\' ∧ c ≠ '"'
+  | .esc c => (cEscape c).isSome
+
+def lastIsBs (a : List Item) : Bool :=
+  match a.getLast? with
+  | some i => i.isBsEsc
+  | none => false
+
+/-- the scanner's precondition (its look-back is two characters): an escaped quote never directly follows an
+    escaped backslash -/
+def ScannerOK (is : List Item) : Prop := ∀ a b i, is = a ++ i :: b → i.isQuoteEsc = true → lastIsBs a = false
+
+theorem lastIsBs_snoc (l : List Item) (z : Item) : lastIsBs (l ++ [z]) = z.isBsEsc := by simp [lastIsBs]
+
+theorem printAll_append (a b : List Item) : printAll (a ++ b) = printAll a ++ printAll b := by
+  simp [printAll]
+
+theorem printAll_cons (i : Item) (b : List Item) : printAll (i :: b) = i.print ++ printAll b := by
+  simp [printAll]
+
+theorem quote_free (a : List Item) (h : ∀ i ∈ a, i.bodyOK ∧ i.isQuoteEsc = false) : '"' ∉ printAll a := by
+  induction a with
+  | nil => simp [printAll]
+  | cons i r ih =>
+    rw [printAll_cons]
+    have hi := h i (by simp)
+    have hr := ih (fun j hj => h j (by simp [hj]))
+    cases i with
+    | plain c =>
+      simp only [Item.print, List.cons_append, List.nil_append, List.mem_cons, not_or]
+      exact ⟨fun e => hi.1.2 e.symm, hr⟩
+    | esc c =>
+      have hc : c ≠ '"' := by
+        intro e; subst e; simp [Item.isQuoteEsc] at hi
+      simp only [Item.print, List.cons_append, List.nil_append, List.mem_cons, not_or]
+      exact ⟨by decide, fun e => hc e.symm, hr⟩
+
+theorem snoc_cases {α : Type} (l : List α) : l = [] ∨ ∃ r i, l = r ++ [i] := by
+  rcases List.eq_nil_or_concat l with h | ⟨r, i, h⟩
+  · exact Or.inl h
+  · exact Or.inr ⟨r, i, by simpa using h⟩
+
+theorem endsWith_snoc (s : List Char) (c d : Char) : endsWith (s ++ [c]) [d] = (c == d) := by
+  unfold endsWith
+  cases h : c == d with
+  | true =>
+    have : c = d := by simpa using h
+    subst this
+    simp [List.isSuffixOf_iff_suffix]
+  | false =>
+    have hne : c ≠ d := by simpa using h
+    cases hs : List.isSuffixOf [d] (s ++ [c]) with
+    | false => rfl
+    | true =>
+      exfalso
+      obtain ⟨t, ht⟩ := List.isSuffixOf_iff_suffix.mp hs
+      have := List.append_inj' ht (by simp)
+      simp at this
+      exact hne this.2.symm
+
+theorem endsWith_snoc2 (s : List Char) (b c d e : Char) : endsWith (s ++ [b, c]) [d, e] = (b == d && c == e) := by
+  unfold endsWith
+  cases h : (b == d && c == e) with
+  | true =>
+    simp only [Bool.and_eq_true, beq_iff_eq] at h
+    obtain ⟨h1, h2⟩ := h
+    subst h1; subst h2
+    simp [List.isSuffixOf_iff_suffix]
+  | false =>
+    cases hs : List.isSuffixOf [d, e] (s ++ [b, c]) with
+    | false => rfl
+    | true =>
+      exfalso
+      obtain ⟨t, ht⟩ := List.isSuffixOf_iff_suffix.mp hs
+      have := List.append_inj' ht (by simp)
+      simp at this
+      simp [this.2.1, this.2.2] at h
+
+/-- the printed body ends with a backslash exactly when its last item is an escaped backslash — and then it ends
+    with two -/
+theorem ends_bs (a : List Item) (h : ∀ i ∈ a, i.bodyOK) :
+    endsWith (printAll a) ['\\'] = lastIsBs a ∧ (lastIsBs a = true → endsWith (printAll a) ['\\', '\\'] = true) := by
+  rcases snoc_cases a with rfl | ⟨r, i, rfl⟩
+  · simp [printAll, lastIsBs, endsWith]
+  · have hi := h i (by simp)
+    have hl : lastIsBs (r ++ [i]) = i.isBsEsc := by simp [lastIsBs]
+    rw [printAll_append, hl]
+    cases i with
+    | plain c =>
+      have : printAll [Item.plain c] = [c] := by simp [printAll, Item.print]
+      rw [this, endsWith_snoc]
+      have hc : (c == '\\') = false := by simpa using hi.1
+      simp [Item.isBsEsc, hc]
+    | esc c =>
+      have : printAll [Item.esc c] = ['\\', c] := by simp [printAll, Item.print]
+      rw [this]
+      have e1 : printAll r ++ ['\\', c] = (printAll r ++ ['\\']) ++ [c] := by simp
+      constructor
+      · rw [e1, endsWith_snoc]; rfl
+      · intro hb
+        rw [endsWith_snoc2]
+        simpa [Item.isBsEsc] using hb
+
+/-- EVERY body of plain characters and escapes that meets the scanner's precondition is closed exactly at its
+    closing quote, whatever follows -/
+theorem findClose_body (post : List Char) : ∀ (is a : List Item) (fuel : Nat), is.length < fuel →
+    (∀ i ∈ a, i.bodyOK ∧ i.isQuoteEsc = false) → (∀ i ∈ is, i.bodyOK) → ScannerOK (a ++ is) →
+    findClose fuel (printAll a ++ printAll is ++ '"' :: post) = some ((printAll a).length + (printAll is).length) := by
+  intro is
+  induction is with
+  | nil =>
+    intro a fuel hf ha _ _
+    obtain ⟨f, rfl⟩ : ∃ f, fuel = f + 1 := ⟨fuel - 1, by omega⟩
+    have hq := quote_free a ha
+    have he := ends_bs a (fun i hi => (ha i hi).1)
+    simp only [printAll, List.map_nil, List.flatten_nil, List.append_nil, List.length_nil, Nat.add_zero] at *
+    unfold findClose
+    rw [splitOnce_quote_plain _ _ hq]
+    cases hb : lastIsBs a with
+    | false => simp [he.1, hb]
+    | true => simp [he.1, hb, he.2 hb]
+  | cons i rest ih =>
+    intro a fuel hf ha his hok
+    have hi := his i (by simp)
+    have hrest : ∀ j ∈ rest, j.bodyOK := fun j hj => his j (by simp [hj])
+    cases hqe : i.isQuoteEsc with
+    | false =>
+      -- not a quote: it joins the scanned part
+      have ha' : ∀ j ∈ a ++ [i], j.bodyOK ∧ j.isQuoteEsc = false := by
+        intro j hj
+        simp only [List.mem_append, List.mem_singleton] at hj
+        rcases hj with hj | rfl
+        · exact ha j hj
+        · exact ⟨hi, hqe⟩
+      have hok' : ScannerOK ((a ++ [i]) ++ rest) := by simpa using hok
+      have := ih (a ++ [i]) fuel (by simp at hf; omega) ha' hrest hok'
+      rw [printAll_append a [i]] at this
+      have e : printAll [i] = i.print := by simp [printAll]
+      rw [printAll_cons]
+      rw [e] at this
+      simp only [List.append_assoc, List.length_append] at this ⊢
+      rw [this]
+      congr 1; omega
+    | true =>
+      -- an escaped quote: the scan looks at it, sees the backslash before it, and goes on behind it
+      obtain ⟨f, rfl⟩ : ∃ f, fuel = f + 1 := ⟨fuel - 1, by omega⟩
+      have hc : i = .esc '"' := by
+        cases i with
+        | plain c => simp [Item.isQuoteEsc] at hqe
+        | esc c => simp [Item.isQuoteEsc] at hqe; rw [hqe]
+      subst hc
+      have hnb : lastIsBs a = false := hok a rest (.esc '"') rfl rfl
+      have hq : '"' ∉ printAll a ++ ['\\'] := by
+        have := quote_free a ha
+        simp [this]
+      have e : printAll a ++ printAll (Item.esc '"' :: rest) ++ '"' :: post
+          = (printAll a ++ ['\\']) ++ '"' :: (printAll rest ++ '"' :: post) := by
+        simp [printAll_cons, Item.print]
+      rw [e]
+      unfold findClose
+      rw [splitOnce_quote_plain _ _ hq]
+      have he := ends_bs a (fun j hj => (ha j hj).1)
+      have h2 : endsWith (printAll a ++ ['\\']) ['\\'] = true := by rw [endsWith_snoc]; rfl
+      have h3 : endsWith (printAll a ++ ['\\']) ['\\', '\\'] = false := by
+        rcases snoc_cases (printAll a) with hr | ⟨s, c, hr⟩
+        · rw [hr]; simp only [List.nil_append, endsWith]; decide
+        · have e2 : s ++ [c] ++ ['\\'] = s ++ [c, '\\'] := by simp
+          rw [hr, e2, endsWith_snoc2]
+          have h1 := he.1
+          rw [hr, endsWith_snoc, hnb] at h1
+          simp [h1]
+      simp only [h2, h3, Bool.not_true, if_false, Bool.false_eq_true]
+      have hok' : ScannerOK ([] ++ rest) := by
+        intro x y j hxy hj
+        simp only [List.nil_append] at hxy
+        have := hok (a ++ Item.esc '"' :: x) y j (by simp [hxy]) hj
+        rcases snoc_cases x with rfl | ⟨x', z, rfl⟩
+        · simp [lastIsBs]
+        · have e5 : a ++ Item.esc '"' :: (x' ++ [z]) = (a ++ Item.esc '"' :: x') ++ [z] := by simp
+          rw [e5] at this
+          rw [lastIsBs_snoc] at this ⊢
+          exact this
+      have := ih [] f (by simp at hf; omega) (by simp) hrest hok'
+      simp only [printAll, List.map_nil, List.flatten_nil, List.nil_append, List.length_nil, Nat.zero_add] at this
+      have e3 : (List.map Item.print rest).flatten = printAll rest := rfl
+      rw [e3] at this
+      rw [this]
+      simp [printAll_cons, Item.print]
+      omega
+
+/-- the same, stated for a whole literal: `"` body `"` -/
+theorem literal_extracted (is : List Item) (post : List Char) (h : ∀ i ∈ is, i.bodyOK) (hok : ScannerOK is) :
+    findClose (is.length + 1) (printAll is ++ '"' :: post) = some (printAll is).length := by
+  have := findClose_body post is [] (is.length + 1) (by omega) (by simp) h (by simpa using hok)
+  simpa [printAll] using this
+
+/-- the precondition as a check on adjacent items -/
+def scannerOKb : List Item → Bool
+  | a :: b :: r => !(a.isBsEsc && b.isQuoteEsc) && scannerOKb (b :: r)
+  | _ => true
+
+theorem scannerOKb_mid : ∀ (p : List Item) (z i : Item) (b : List Item),
+    scannerOKb (p ++ z :: i :: b) = true → (z.isBsEsc && i.isQuoteEsc) = false := by
+  intro p
+  induction p with
+  | nil =>
+    intro z i b h
+    simp only [List.nil_append, scannerOKb, Bool.and_eq_true, Bool.not_eq_true'] at h
+    exact h.1
+  | cons x xs ih =>
+    intro z i b h
+    cases xs with
+    | nil =>
+      simp only [List.cons_append, List.nil_append, scannerOKb, Bool.and_eq_true] at h
+      exact ih z i b (by simpa [scannerOKb] using h.2)
+    | cons y ys =>
+      simp only [List.cons_append, scannerOKb, Bool.and_eq_true] at h
+      exact ih z i b (by simpa using h.2)
+
+theorem scannerOK_of_b (is : List Item) (h : scannerOKb is = true) : ScannerOK is := by
+  intro a b i he hq
+  rcases snoc_cases a with rfl | ⟨a', z, rfl⟩
+  · rfl
+  · rw [lastIsBs_snoc]
+    have : is = a' ++ z :: i :: b := by simp [he]
+    rw [this] at h
+    have := scannerOKb_mid a' z i b h
+    simpa [hq] using this
+
+/-! non-vacuity: `a\\b\"\n` (escaped backslash, then a plain character, then an escaped quote) meets the precondition;
+    the witness `\\\"` does not -/
+example : ScannerOK [.plain 'a', .esc '\\', .plain 'b', .esc '"', .esc 'n'] := scannerOK_of_b _ (by decide)
+example : scannerOKb [.esc '\\', .esc '"'] = false := by decide
+example : findClose 6 (printAll [.plain 'a', .esc '\\', .plain 'b', .esc '"', .esc 'n'] ++ '"' :: [' ', 'x'])
+    = some 8 := by decide
 
 /-- what the look-back cannot see: backslash-backslash-backslash-quote inside a body closes it -/
 theorem odd_backslashes_witness :
